@@ -146,6 +146,20 @@ class _Subst(ast.NodeTransformer):
     def visit_arg(self, n):
         return n
 
+    def visit_FunctionDef(self, n):
+        if n.name in self.rename:
+            n.name = self.rename[n.name]
+        self.generic_visit(n)
+        return n
+
+    visit_AsyncFunctionDef = visit_FunctionDef
+
+    def visit_ExceptHandler(self, n):
+        if n.name and n.name in self.rename:
+            n.name = self.rename[n.name]
+        self.generic_visit(n)
+        return n
+
     def visit_Nonlocal(self, n):
         n.names = [self.rename.get(x, x) for x in n.names]
         return n
@@ -176,6 +190,60 @@ def _all_names(node) -> set:
         elif isinstance(n, FuncNode):
             out.add(n.name)
     return out
+
+
+class _FoldFString(ast.NodeTransformer):
+    """f'{"lit"} x'  ->  f'lit x'  (a constant substituted for a named constant inside an f-string)"""
+
+    def visit_JoinedStr(self, node):
+        self.generic_visit(node)
+        vals = []
+        for v in node.values:
+            if isinstance(v, ast.FormattedValue) and isinstance(v.value, ast.Constant) and isinstance(v.value.value, str) and v.conversion == -1 and v.format_spec is None:
+                v = ast.copy_location(ast.Constant(value=v.value.value), v)
+            if isinstance(v, ast.Constant) and vals and isinstance(vals[-1], ast.Constant):
+                vals[-1] = ast.copy_location(ast.Constant(value=vals[-1].value + v.value), vals[-1])
+            else:
+                vals.append(v)
+        node.values = vals
+        if len(vals) == 1 and isinstance(vals[0], ast.Constant):
+            return ast.copy_location(ast.Constant(value=vals[0].value), node)
+        return node
+
+
+class _AttrIdioms(ast.NodeTransformer):
+    """getattr(o, 'a') -> o.a ; setattr(o, 'a', v) -> o.a = v ; t = t + v -> t += v"""
+
+    def __init__(self):
+        self.n = 0
+
+    def visit_Call(self, node):
+        self.generic_visit(node)
+        if isinstance(node.func, ast.Name) and node.func.id == 'getattr' and len(node.args) == 2 and not node.keywords and isinstance(node.args[1], ast.Constant) and isinstance(node.args[1].value, str) and node.args[1].value.isidentifier():
+            self.n += 1
+            return ast.copy_location(ast.Attribute(value=node.args[0], attr=node.args[1].value, ctx=ast.Load()), node)
+        return node
+
+    def visit_Expr(self, node):
+        self.generic_visit(node)
+        c = node.value
+        if isinstance(c, ast.Call) and isinstance(c.func, ast.Name) and c.func.id == 'setattr' and len(c.args) == 3 and not c.keywords and isinstance(c.args[1], ast.Constant) and isinstance(c.args[1].value, str) and c.args[1].value.isidentifier():
+            self.n += 1
+            tgt = ast.Attribute(value=c.args[0], attr=c.args[1].value, ctx=ast.Store())
+            return self._aug(ast.copy_location(ast.Assign(targets=[ast.copy_location(tgt, c)], value=c.args[2]), node))
+        return node
+
+    def visit_Assign(self, node):
+        self.generic_visit(node)
+        return self._aug(node)
+
+    def _aug(self, node):
+        if len(node.targets) == 1 and isinstance(node.targets[0], (ast.Name, ast.Attribute)) and isinstance(node.value, ast.BinOp) and isinstance(node.value.op, (ast.Add, ast.Sub)):
+            t = node.targets[0]
+            if ast.dump(t).replace('Store()', 'Load()') == ast.dump(node.value.left):
+                self.n += 1
+                return ast.copy_location(ast.AugAssign(target=t, op=node.value.op, value=node.value.right), node)
+        return node
 
 
 class _NotCompare(ast.NodeTransformer):
@@ -420,6 +488,21 @@ class Normalizer:
     def _prepare_body(self, d: _Def, call: ast.Call, ctx_names: set, prefer=None):
         """copied helper body with parameters bound and clashing locals renamed"""
         self.expand(d)
+        star_prologue = []
+        if len(call.args) == 1 and isinstance(call.args[0], ast.Starred) and not call.keywords:
+            # h(*E) with h(p1, .., pn): p1, .., pn = E
+            a = d.node.args
+            pos = list(a.posonlyargs + a.args)
+            if d.is_method and not d.is_static:
+                pos = pos[1:]
+            if pos and not a.defaults and not a.kwonlyargs:
+                temps = [self._fresh(p.arg, ctx_names) for p in pos]
+                tgt = ast.Tuple(elts=[ast.Name(id=t, ctx=ast.Store()) for t in temps], ctx=ast.Store())
+                asg = ast.Assign(targets=[tgt], value=call.args[0].value)
+                ast.copy_location(asg, call)
+                ast.fix_missing_locations(asg)
+                star_prologue.append(asg)
+                call = ast.Call(func=call.func, args=[ast.copy_location(ast.Name(id=t, ctx=ast.Load()), call) for t in temps], keywords=[])
         names, bound = self._bind(d, call, True)
         body = copy.deepcopy(_strip_doc(d.node.body))
         holder = ast.Module(body=body, type_ignores=[])
@@ -463,6 +546,7 @@ class Normalizer:
         body = [tr.visit(s) for s in body]
         # `nonlocal x` of a helper expanded inside the scope that owns x is a plain local there
         body = [s for s in body if not isinstance(s, ast.Nonlocal)] if nonlocals else body
+        prologue = star_prologue + prologue
         for s in prologue + body:
             ast.fix_missing_locations(s)
         return prologue, body
@@ -809,6 +893,21 @@ class Normalizer:
                 setattr(holder[1], holder[0], ast.copy_location(ast.Name(id=ne.target.id, ctx=ast.Load()), ne))
                 self.stats['idioms'] += 1
                 return [asg, s]
+        # for x in (a, b, c): body   ->   body[x:=a] ; body[x:=b] ; body[x:=c]     (short literal sequences only)
+        if isinstance(s, ast.For) and not s.orelse and isinstance(s.target, ast.Name) and isinstance(s.iter, (ast.Tuple, ast.List)) and 1 <= len(s.iter.elts) <= 6 and not any(isinstance(e, ast.Starred) for e in s.iter.elts):
+            body_nodes = [n for b in s.body for n in [b] + list(_local_walk(b))]
+            assigned = any(isinstance(n, ast.Name) and n.id == s.target.id and isinstance(n.ctx, (ast.Store, ast.Del)) for n in body_nodes)
+            jumps = any(isinstance(n, (ast.Break, ast.Continue)) for n in body_nodes)
+            nested_defs = any(isinstance(n, FuncNode + (ast.Lambda, ast.ClassDef)) for n in body_nodes)
+            if not assigned and not jumps and not nested_defs and all(_is_simple_arg(e) for e in s.iter.elts):
+                out = []
+                for e in s.iter.elts:
+                    for b in s.body:
+                        out.append(_Subst({}, {s.target.id: e}).visit(copy.deepcopy(b)))
+                for o in out:
+                    ast.fix_missing_locations(o)
+                self.stats['idioms'] += 1
+                return out
         # while (x := e) ...: body   ->   while True: x = e ; if not (x ...): break ; body
         if isinstance(s, ast.While) and not s.orelse:
             t = s.test
@@ -1338,8 +1437,15 @@ class Normalizer:
                 for d in list(self.defs[rel]):
                     if not self.transparent(d) or getattr(d.node, '_dehoisted_from', None):
                         continue
-                    if d.node not in d.parent_body:
+                    holder = None
+                    for par in ast.walk(self.trees[rel]):
+                        for fld in ('body', 'orelse', 'finalbody'):
+                            blk = getattr(par, fld, None)
+                            if isinstance(blk, list) and any(x is d.node for x in blk):
+                                holder = blk
+                    if holder is None:
                         continue
+                    d.parent_body = holder
                     own = sum(1 for n in ast.walk(d.node) if (isinstance(n, ast.Name) and n.id == d.name) or (isinstance(n, ast.Attribute) and n.attr == d.name))
                     if refs.get(d.name, 0) - own > 0:
                         continue
@@ -1366,6 +1472,10 @@ class Normalizer:
         for tree in self.trees.values():
             t = _NotCompare()
             t.visit(tree)
+            _FoldFString().visit(tree)
+            ai = _AttrIdioms()
+            ai.visit(tree)
+            self.stats['idioms'] += ai.n
             self.stats['idioms'] += t.n
             ast.fix_missing_locations(tree)
         return self.trees
